@@ -56,7 +56,18 @@ def _lib_read(text, mode):
     from pddl_plus_parser.lisp_parsers import PDDLTokenizer
     if mode == "str":
         return lib_call(lambda: PDDLTokenizer(pddl_str=text).parse())
-    p = write_tmp(text, suffix=".pddl", newline="")
+    # one working path per process: before the text, a decoy of exactly the same length (one letter changed) is
+    # written there and read - what a file holds now is what counts, not what it held a moment ago
+    from pv.lib import tmpdir
+    p = tmpdir() / "working_copy.pddl"
+    i = next((k for k, ch_ in enumerate(text) if ch_.isascii() and ch_.isalpha()), None)
+    if i is not None:
+        decoy = text[:i] + ("b" if text[i].lower() != "b" else "c") + text[i + 1:]
+        with open(p, "w", encoding="utf-8", newline="") as fh:
+            fh.write(decoy)
+        lib_call(lambda: PDDLTokenizer(file_path=p).parse())
+    with open(p, "w", encoding="utf-8", newline="") as fh:
+        fh.write(text)
     return lib_call(lambda: PDDLTokenizer(file_path=p).parse())
 
 
